@@ -233,10 +233,10 @@ func Spec() *core.Spec {
 		ID:    "C06",
 		Level: "exploration",
 		Rule: "27 implemented operations x {request,response} x {TTLV,XML,JSON} x versions with valid payloads; the 16 named-unimplemented codes, boundary codes and seeded random 32-bit codes with arbitrary generic payloads; " +
-			"9 object types in Get/Export responses and Register/Import requests plus unknown and mismatching object type codes; 50 standard attribute names x 10 TTLV value types; custom/arbitrary attribute names x 10 types. " +
+			"9 object types in Get/Export responses and Register/Import requests plus unknown and mismatching object type codes; 50 standard attribute names x 10 TTLV value types; custom/arbitrary attribute names x 10 types; payload types registered for a vendor operation at run time, after the first decode, in a fresh process. " +
 			"Inputs are built by the independent generator (binary) or from the generic tree (XML/JSON). distinct = distinct (class, operation/object/attribute, direction, encoding, value type) combinations",
 		Assumptions: []string{"operation/object/attribute type tables in harness/gen/ops.go are written from the KMIP 1.4 specification"},
-		Required:    []string{"typed_payloads", "opaque_payloads", "objects_typed", "objects_unknown_rejected", "attrs_typed", "attrs_wrong_type_rejected", "attrs_opaque"},
+		Required:    []string{"typed_payloads", "opaque_payloads", "objects_typed", "objects_unknown_rejected", "attrs_typed", "attrs_wrong_type_rejected", "attrs_opaque", "late_registration_decodes"},
 		Families: []core.Family{
 			{Name: "ops-typed", N: nOf(27*2*3*5*3, 27*2*3*5*120), Run: func(c *core.Ctx, r *core.Rand, i int) {
 				op := &gen.Ops[i%27]
@@ -361,6 +361,7 @@ func Spec() *core.Spec {
 			{Name: "objects", N: nOf(9*4*3*4+60*3, 9*4*3*400+60*3*20), Run: func(c *core.Ctx, r *core.Rand, i int) {
 				objectsCase(c, r, i, mode)
 			}},
+			{Name: "late-registration", Isolated: true, Exhaustive: true, N: func(string) int { return 2 }, Run: lateRegistration},
 			{Name: "attrs-std", Exhaustive: true, N: func(tier string) int { return 50 * 10 * 3 }, Run: func(c *core.Ctx, r *core.Rand, i int) {
 				at := gen.AttrTypes[i%50]
 				wt := ttlvTypes[(i/50)%10]
@@ -469,6 +470,76 @@ func Spec() *core.Spec {
 				}
 			}},
 		},
+	}
+}
+
+// vendor payload types registered at run time (public API kmip.RegisterOperationPayload)
+type vendorRequest struct {
+	UniqueIdentifier string
+}
+
+func (*vendorRequest) Operation() kmip.Operation { return vendorOp }
+
+type vendorResponse struct {
+	UniqueIdentifier string
+	Data             []byte `ttlv:",omitempty"`
+}
+
+func (*vendorResponse) Operation() kmip.Operation { return vendorOp }
+
+const vendorOp = kmip.Operation(0x80F0C0DE)
+
+// lateRegistration runs in its own fresh process: decode first (so that whatever the library
+// caches lazily exists), THEN register payload types for a vendor operation, then decode that
+// operation in both directions and all encodings.
+func lateRegistration(c *core.Ctx, r *core.Rand, i int) {
+	// 1. some decoding first, of a built-in operation and of the still-unknown vendor operation
+	for _, enc := range encs {
+		warm := reqTree(4, int64(kmip.OperationActivate), st(0, text(kmip.TagUniqueIdentifier, "warm")))
+		decodeMsg(c, enc, Input(enc, warm), false, "warm-up")
+		pre := reqTree(4, int64(vendorOp), st(0, text(kmip.TagUniqueIdentifier, "before")))
+		d, _, ok := decodeMsg(c, enc, Input(enc, pre), false, "vendor operation before registration")
+		if ok && d.payload != nil {
+			if _, isUnknown := d.payload.(*kmip.UnknownPayload); !isUnknown {
+				c.Violation("C06:late-registration:typed-before-registration", fmt.Sprintf("vendor operation decodes to %T before any registration", d.payload), nil)
+			}
+		}
+	}
+	// 2. registration at run time
+	kmip.RegisterOperationPayload[vendorRequest, vendorResponse](vendorOp)
+	// 3. the operation now decodes to the registered types
+	for _, enc := range encs {
+		for _, resp := range []bool{false, true} {
+			pl := st(0, text(kmip.TagUniqueIdentifier, "after"))
+			var t wire.Node
+			var want reflect.Type
+			if resp {
+				t, want = respTree(4, int64(vendorOp), pl), reflect.TypeFor[*vendorResponse]()
+			} else {
+				t, want = reqTree(4, int64(vendorOp), pl), reflect.TypeFor[*vendorRequest]()
+			}
+			in := Input(enc, t)
+			label := fmt.Sprintf("vendor operation %s registered after the first decode", dirName(resp))
+			c.Count("late_registration_decodes", 1)
+			c.Distinct(core.Hash64("late", enc, dirName(resp)))
+			d, derr, ok := decodeMsg(c, enc, in, resp, label)
+			if !ok {
+				continue
+			}
+			sig := fmt.Sprintf("C06:late-registration:%s:%s", dirName(resp), enc)
+			if derr != nil {
+				c.Violation(sig+":decode-error", fmt.Sprintf("%s does not decode from %s: %v", label, enc, derr), map[string]any{"input": show(enc, in)})
+				continue
+			}
+			if reflect.TypeOf(d.payload) != want {
+				c.Violation(sig+":wrong-type", fmt.Sprintf("%s decodes to %T, the type registered for the operation is %s", label, d.payload, want), map[string]any{"input": show(enc, in)})
+				continue
+			}
+			if d.payload.Operation() != vendorOp {
+				c.Violation(sig+":wrong-operation", "payload reports another operation", nil)
+			}
+			preserved(c, sig+":content", enc, in, d.msg, t, label)
+		}
 	}
 }
 
